@@ -13,7 +13,10 @@ Bounded exhaustive exploration of boot_noise_ceiling / cv_noise_ceiling / pool_r
 * rescaling / shifting of every individual data RDM;
 * cross-validated ceiling on every set structure the fold generators produce for <= 4 RDM
   groups (random=True: every shuffle outcome / deviation bounded), through cv_noise_ceiling and
-  through the real crossval() (both of its noise-ceiling branches: ceil_set given / None).
+  through the real crossval() (both of its noise-ceiling branches: ceil_set given / None);
+  sets_k_fold with 4..12 rdm groups (every remainder n_groups mod k_rdm), each fold on its own;
+* every ordered pair of methods in two consecutive calls on ONE RDMs object; every call must leave
+  its arguments bit-identical.
 
 Judged against mc/ref/c07_ref.py (plain-loop pooling and leave-one-group-out).
 """
@@ -39,7 +42,10 @@ RULE = ('One evaluation = one execution of library code judged by the reference:
         'fold-generator call + cv_noise_ceiling, or + the real crossval() (always for pattern-only sets with '
         'ceil_set None, whose per-fold ceilings are each compared with the reference at that fold\'s TEST '
         'conditions; additionally for the sets of every other generator), under one fully specified sequence '
-        'of random draws. Stacks: all ordered stacks of 2 '
+        'of random draws; the reference prediction of a fold always pools the REMAINING rdm groups (complement of '
+        'the fold\'s test groups), not whatever the training set holds; (seq) one pair of consecutive '
+        'noise-ceiling calls with two methods on one RDMs object. Around every such call the caller-owned '
+        'arguments are fingerprinted and must be bit-identical afterwards. Stacks: all ordered stacks of 2 '
         '(thorough: 3; quick: strided triples) vectors over {0,1,2}^3; a strided subset of ordered pairs over '
         '{0,1,2}^6 x every common NaN mask of <=2 entries; fixed fills for 2-4 RDMs x 3-4 conditions x '
         'every set partition of the RDMs x label namings x NaN masks; methods cosine, corr, rho-a '
@@ -79,7 +85,14 @@ BOUNDS = {
               'k_fold, sets_random, k_fold_pattern, of_k_pattern: all draws with <= 1 non-default answer (2 fills); '
               'pattern-only sets (ceil_set None) through the real crossval(): k in {1,2,3}, group sizes 3-5, n_cond '
               '6,7,10 (unequal folds) and 12 (six condition groups of two), every fold judged separately; the sets '
-              'of every other generator also through crossval(ceil_set=...)'},
+              'of every other generator also through crossval(ceil_set=...)',
+        'k_fold with many groups': 'sets_k_fold with 4,5 rdm groups (k_rdm 2), 5..9 (k_rdm 3), 9..12 (k_rdm 4) = every '
+                                   'remainder, singleton groups and two doubled groups, k_pattern 1 and 2; every fold '
+                                   'judged on its own against the pooled RDM of the REMAINING groups; no test group in '
+                                   'the training / ceiling set; shuffled order with <= 1 non-default answer',
+        'call sequences': 'every ordered pair of the 5 methods on ONE RDMs object through boot_noise_ceiling, '
+                          'cv_noise_ceiling, eval_fixed, crossval (n_rdm 2-4, n_cond 3-4, 2 fills); every '
+                          'noise-ceiling / pool_rdm / crossval call of the whole check leaves its arguments bit-identical'},
     'thorough': {
         'n_rdm': [2, 3, 4], 'n_cond': [3, 4], 'n_cond (pattern cross-validation)': [6, 7],
         'tier A': ['all 729 ordered pairs and all 19683 ordered triples over {0,1,2}^3 x all 5 groupings',
@@ -87,7 +100,9 @@ BOUNDS = {
         'tier B': '6 fills per (n_rdm, n_cond), otherwise as quick',
         'candidates': 'as quick', 'transforms': 'as quick', 'leak': 'as quick',
         'cv': 'as quick with <= 2 non-default answers, 6 fills, n_cond 6 and 7 for every pattern generator; '
-              'pattern-only sets through crossval(): k in {1,2,3,4}, n_cond 6,7,9,10,11,12,13'},
+              'pattern-only sets through crossval(): k in {1,2,3,4}, n_cond 6,7,9,10,11,12,13',
+        'k_fold with many groups': 'as quick, shuffled order for every (k_rdm, n_groups), 6 fills',
+        'call sequences': 'as quick with 4 fills'},
 }
 
 PLAIN = ['cosine', 'corr', 'rho-a']
